@@ -334,6 +334,17 @@ func xShapes(thorough bool) []xShape {
 			add("XS", XArr(in, 2))
 		}
 	}
+	// XN: nested arrays (two and three levels, a runtime-sized outer level) of every leaf, bare, as the only
+	// member of a struct and after a scalar member — matrix majorness/stride and array strides must be
+	// carried through every array level
+	for _, l := range L {
+		nests := []*XT{XArr(XArr(l, 2), 2), XArr(XArr(l, 3), 2), XArr(XArr(XArr(l, 2), 2), 2), XArr(XArr(l, 2), 0)}
+		for _, nt := range nests {
+			add("XN", nt)
+			add("XN", xMk("SX", []*XT{nt}))
+			add("XN", xMk("SX", []*XT{XS("f32"), nt}))
+		}
+	}
 	return out
 }
 
